@@ -18,7 +18,7 @@ LEVEL = "exploration"
 RULE = (
     "(i) EXHAUSTIVE histories over the 9-letter alphabet {fun, grad, fun_and_grad} x {P0, P1, P2} of length <= L for each gradient mode (quick: L=4 for callable/2-point/3-point/cs; thorough: L=6 callable "
     "and 2-point, L=5 3-point and cs), the wrapper built by prepare_scalar_function; (ii) RuleBasedStateMachine histories of up to 30 requests with extra operations: set the scaling factor, "
-    "mutate the previously passed array in place and pass it again, pass a new array with the same values, overwrite the gradient array that was returned (also in the exhaustive part, as a second variant of every history), points containing -0.0/0.0; wrappers built from a float32 / float16 / integer start point (short histories exhaustively, and in the machine). Oracle: every answer equals a fresh evaluation by the harness "
+    "mutate the previously passed array in place and pass it again, pass a new array with the same values, overwrite the gradient array that was returned (also in the exhaustive part, as a second variant of every history), points containing -0.0/0.0; user callables that overwrite the array they are handed (a third variant of every history); wrappers built from a float32 / float16 / integer start point (short histories exhaustively, and in the machine). Oracle: every answer equals a fresh evaluation by the harness "
     "times the scaling factor current at the time of the answer; counters equal the call log; no objective call at the point of the immediately preceding request when that already produced f. "
     "non-trivial = the history revisits a point after visiting another, or mutates a passed array, or changes the scaling factor between two requests at the same point; distinct = distinct history"
 )
@@ -58,7 +58,7 @@ def fd_ref(p, mode, eps, rel):
 class Wrapper:
     """The wrapper under test plus the harness's call log."""
 
-    def __init__(self, mode, eps=1e-8, rel=None, x0_dtype="float64"):
+    def __init__(self, mode, eps=1e-8, rel=None, x0_dtype="float64", scribble=False):
         from lbfgsb.scalar_function import prepare_scalar_function
 
         self.mode, self.eps, self.rel = mode, eps, rel
@@ -66,11 +66,18 @@ class Wrapper:
 
         def fun(x, *a):
             self.flog.append(np.array(x, copy=True))  # complex for 'cs' stencil points, which are not "the point p"
-            return f_pure(x)
+            v = f_pure(x)
+            if scribble and isinstance(x, np.ndarray) and x.flags.writeable:
+                x[...] = 7.25  # the user "may overwrite" the array it is handed: the wrapper must not care
+            return v
 
         def jac(x, *a):
             self.glog.append(np.array(x, dtype=float, copy=True))
-            return g_pure(x)
+            gv = g_pure(x)
+            if scribble and isinstance(x, np.ndarray) and x.flags.writeable:
+                x[...] = gv  # e.g. a gradient computed in place in the argument buffer
+                return x
+            return gv
 
         # the wrapper may be built from a start point of any real dtype (float32, integers, ...): requests
         # made later at float64 points must still be answered at exactly those points
@@ -150,7 +157,7 @@ class Wrapper:
 
 def run_history(item, stats=None):
     mode, hist = item["mode"], item["hist"]
-    w = Wrapper(None if mode == "None" else mode, item.get("eps", 1e-8), item.get("rel"), item.get("x0_dtype", "float64"))
+    w = Wrapper(None if mode == "None" else mode, item.get("eps", 1e-8), item.get("rel"), item.get("x0_dtype", "float64"), bool(item.get("scribble")))
     try:
         for k, (op, pi) in enumerate(hist):
             _, og = w.request(OPS[op], POINTS[pi].copy(), tag=f"[{mode}] step {k}: ")
@@ -162,7 +169,7 @@ def run_history(item, stats=None):
         v.spec = item
         raise
     if stats is not None:
-        stats.case(item, w.revisit or bool(item.get("mutate_returned")) or "x0_dtype" in item, [f"mode={mode}", f"len={len(hist)}", f"mutate_returned={bool(item.get('mutate_returned'))}", f"x0_dtype={item.get('x0_dtype', 'float64')}"],
+        stats.case(item, w.revisit or bool(item.get("mutate_returned")) or "x0_dtype" in item or bool(item.get("scribble")), [f"mode={mode}", f"len={len(hist)}", f"mutate_returned={bool(item.get('mutate_returned'))}", f"x0_dtype={item.get('x0_dtype', 'float64')}", f"scribble={bool(item.get('scribble'))}"],
                    sample={"mode": mode, "history": [f"{OPS[o]}(P{p})" for o, p in hist]} if len(hist) >= 3 else None)
 
 
@@ -177,11 +184,13 @@ def enum_items(modes_len):
                 if ln <= min(L - 1, 3):
                     for dt in ("float32", "int64", "float16"):
                         yield {"mode": mode, "hist": [list(h) for h in hist], "x0_dtype": dt}
+                if ln <= L - 1:
+                    yield {"mode": mode, "hist": [list(h) for h in hist], "scribble": True}
 
 
 # ---------------------------------------------------------------- stateful part
 def apply_ops(spec, stats=None):
-    w = Wrapper(None if spec["mode"] == "None" else spec["mode"], spec.get("eps", 1e-8), spec.get("rel"), spec.get("x0_dtype", "float64"))
+    w = Wrapper(None if spec["mode"] == "None" else spec["mode"], spec.get("eps", 1e-8), spec.get("rel"), spec.get("x0_dtype", "float64"), bool(spec.get("scribble")))
     last_arr = None
     last_out = None
     mutated = False
@@ -216,7 +225,7 @@ def make_machine(state, stats):
         @initialize(mode=st.sampled_from(["callable", "callable", "None", "2-point", "3-point", "cs"]), rel=st.sampled_from([None, 1e-7]), eps=st.sampled_from([1e-8, 1e-6]),
                     dt=st.sampled_from(["float64", "float64", "float32", "int64", "float16"]))
         def init(self, mode, rel, eps, dt):
-            self.spec = {"mode": mode, "rel": rel, "eps": eps, "x0_dtype": dt, "ops": []}
+            self.spec = {"mode": mode, "rel": rel, "eps": eps, "x0_dtype": dt, "ops": [], "scribble": dt == "float64" and rel is None and eps == 1e-6}
 
         def _do(self, op):
             if self.dead or not state["budget_left"]():
